@@ -26,6 +26,39 @@ def de_oracle(d1, d2, t):
     return 1 if abs(d1 - d2) <= t else 0
 
 
+def doubles_equal_rule(prog, run, rid):
+    """doubles_equal folded over the floating-point class partition x thresholds against the IEEE oracle; the isinf seam answers 1
+    for both infinities (the C++ <cmath> contract: non-zero, no sign). Shared with C09 (double parameters compare through it)."""
+    de = prog.fn("doubles_equal")
+    run.analysed(de)
+    pn = [p["name"] for p in de.params]
+    fin = [0.0, -0.0, 1.0, -1.0, 1.5, 1.25, 1e17, 1e17 + 16, 9007199254740992.0, 9007199254740994.0, 1.7e308, -1.7e308, 5e-324, 1e-310]
+    vals = [NAN, INF, -INF] + fin
+    ths = [NAN, 0.0, 5e-324, 0.25, 1.0, 10.0, 1e292, INF]
+    # isinf only promises non-zero for an infinity: <cmath> answers 1 for both, the old glibc macro -1 / +1
+    for (d1, d2), signed_isinf in itertools.product(itertools.product(vals, vals), (0, 1)):
+        for t in ths:
+            if signed_isinf and not (math.isinf(d1) or math.isinf(d2)):
+                continue
+            ev = Evaluator(prog, de, env={pn[0]: d1, pn[1]: d2, pn[2]: t})
+            ev.calls["PlatformSpecificIsNan"] = lambda x: 1 if x != x else 0
+            ev.calls["PlatformSpecificIsInf"] = (lambda x: (1 if x == INF else -1 if x == -INF else 0)) if signed_isinf else (lambda x: 1 if (x == INF or x == -INF) else 0)
+            ev.calls["PlatformSpecificFabs"] = lambda x: abs(x)
+            try:
+                ev.run_blocks(de.entry, max_steps=200)
+                got = getattr(ev, "ret", None)
+                if isinstance(got, bool):
+                    got = int(got)
+            except Unknown as u:
+                got = "unknown: %s" % u
+            want = de_oracle(d1, d2, t)
+            if got != want:
+                run.ob(rid, "doubles_equal(%r, %r, %r)%s" % (d1, d2, t, " [isinf reports the sign]" if signed_isinf else ""), de.site, False, witness={"folded": got, "oracle": want},
+                       what="returns %s, the property requires %s" % (got, "true" if want else "false"))
+            else:
+                run.ob(rid, "doubles_equal(%r, %r, %r)%s" % (d1, d2, t, " [isinf reports the sign]" if signed_isinf else ""), de.site, True, witness={"folded": got})
+
+
 # oracles: valuation (atom key -> bool) -> should the check record a failure?
 def _null_pair(v, e="expected", a="actual"):
     return v.get(e), v.get(a)
@@ -193,7 +226,7 @@ def macro_layer(ctx, run):
 def check(ctx, run):
     prog = ctx.program()
     run.assume("IEEE-754 binary64 arithmetic for double (Python floats fold with the same semantics); isnan/isinf/fabs have their C meaning")
-    run.not_decided.append("value semantics of StrCmp/StrNCmp/StrStr/MemCmp/ToLower/equalsNoCase/contains over all byte strings (loops over unbounded data; C13 decides their bounds and NUL-termination, not their textbook meaning)")
+    run.not_decided.append("value semantics of StrCmp/StrNCmp/MemCmp/equalsNoCase over all byte strings (loops over unbounded data; C13 folds them on bounded string sets; StrStr is folded here under R6 for haystacks up to 5 and needles up to 3 over a two-letter alphabet)")
     run.not_decided.append("macro expansions with operand types other than those instantiated in the witness unit (templates over StringFrom / operator!= for user types)")
     run.rule("R1", "assert family: every assert entry point folded on operand cases (NULL / equal / different / prefix / case / boundary and 2^32-alias values per operand type) against its predicate: countCheck exactly once and first, a failure recorded once iff the predicate is false, (expected, actual) reach the failure object in that order", floor=35, exhaustive=True)
     run.rule("R2", "doubles_equal folded over the floating-point class partition {NaN, -Inf, +Inf, finite lattice} x thresholds {NaN, 0, subnormal, small, large, Inf} equals: NaN => false; same infinity => true; opposite infinities => false; finite => |d1-d2| <= t", floor=300, exhaustive=True)
@@ -205,6 +238,9 @@ def check(ctx, run):
     run.rule("R4", "PARTITION: the character classifiers the case-insensitive checks rely on (isUpper, ToLower) folded for all 256 char values", floor=1, exhaustive=True)
     from .shared import char_classifiers
     char_classifiers(prog, run, "R4", which=("isUpper", "ToLower"))
+    run.rule("R6", "STRCMP_CONTAINS / STRCMP_NOCASE_CONTAINS decide through SimpleString::contains -> StrStr: StrStr folded on every haystack over {a,b} up to length 5 x every needle up to length 3 returns the first occurrence or NULL (shared with C13.R5)", floor=1, exhaustive=True)
+    from .C13 import strstr_rule
+    strstr_rule(prog, run, "R6")
     # ---------------- R1 ----------------------------------------------------
     fold_assert, TABLE = assert_family(prog, shell)
     found = 0
@@ -258,31 +294,7 @@ def check(ctx, run):
     for _ in range(0):
         pass
     # ---------------- R2 ----------------------------------------------------
-    de = prog.fn("doubles_equal")
-    run.analysed(de)
-    pn = [p["name"] for p in de.params]
-    fin = [0.0, -0.0, 1.0, -1.0, 1.5, 1.25, 1e17, 1e17 + 16, 9007199254740992.0, 9007199254740994.0, 1.7e308, -1.7e308, 5e-324, 1e-310]
-    vals = [NAN, INF, -INF] + fin
-    ths = [NAN, 0.0, 5e-324, 0.25, 1.0, 10.0, 1e292, INF]
-    for d1, d2 in itertools.product(vals, vals):
-        for t in ths:
-            ev = Evaluator(prog, de, env={pn[0]: d1, pn[1]: d2, pn[2]: t})
-            ev.calls["PlatformSpecificIsNan"] = lambda x: 1 if x != x else 0
-            ev.calls["PlatformSpecificIsInf"] = lambda x: 1 if (x == INF or x == -INF) else 0
-            ev.calls["PlatformSpecificFabs"] = lambda x: abs(x)
-            try:
-                ev.run_blocks(de.entry, max_steps=200)
-                got = getattr(ev, "ret", None)
-                if isinstance(got, bool):
-                    got = int(got)
-            except Unknown as u:
-                got = "unknown: %s" % u
-            want = de_oracle(d1, d2, t)
-            if got != want:
-                run.ob("R2", "doubles_equal(%r, %r, %r)" % (d1, d2, t), de.site, False, witness={"folded": got, "oracle": want},
-                       what="returns %s, the property requires %s" % (got, "true" if want else "false"))
-            else:
-                run.ob("R2", "doubles_equal(%r, %r, %r)" % (d1, d2, t), de.site, True, witness={"folded": got})
+    doubles_equal_rule(prog, run, "R2")
     # the slots really are isnan / isinf / fabs
     for slot, fn_ in (("PlatformSpecificIsNan", ("isnan", "__isnan", "__builtin_isnan")), ("PlatformSpecificIsInf", ("isinf", "__isinf", "__builtin_isinf", "__builtin_isinf_sign")), ("PlatformSpecificFabs", ("fabs",))):
         tg = prog.slots().get(slot, set())
